@@ -9,7 +9,7 @@ CHECKS = {
     "C01": ("exploration", "3.C01", "Seeded search over wiring programs, statement orders and tick coincidences on the real wiring layer and simulation executor; every cycle of every run is checked against the program's own dependency relation, the compiled edge lists and the reference interpreter. Sampling, not proof: a clean batch is evidence that ranking and the evaluation scan respect dependencies for the shapes the generator reaches."),
     "C02": ("exploration", "3.C02", "Seeded search over wake-up schedules, run windows and wall-clock faults; cycle times are compared with a discrete-event reference model and every logged request must be honoured at exactly its time. Sampling of the schedule space; wall-clock independence is checked differentially on every case."),
     "C03": ("exploration", "3.C03", "Seeded search over programs built from the activity/validity vocabulary; each run is compared evaluation by evaluation (which user code ran, on which value/modified/valid triples, what it wrote) with an executable reference interpreter. Sampling of programs and input histories."),
-    "C04": ("exploration", "3.C04", "Scripted writers over 19 time-series shapes are observed in every engine cycle - also the cycles in which nothing was written - by always-awake passive probes and by active consumers at different ranks; every reading (value, modified, valid, last-modified-time, delta accessors, per child) is compared with the write history and with the producer's own view. Seeded sampling of shapes and write histories."),
+    "C04": ("exploration", "3.C04", "Scripted writers over 22 time-series shapes are observed in every engine cycle - also the cycles in which nothing was written - by always-awake passive probes and by active consumers at different ranks; every reading (value, modified, valid, last-modified-time, delta accessors, per child) is compared with the write history and with the producer's own view. Seeded sampling of shapes and write histories."),
     "C05": ("exploration", "3.C05", "Seeded mutation histories (biased to cancelling, re-adding, slot-reusing and capacity-crossing mutations) over collection shapes; every tick read by direct, mirrored and lazy consumers is checked relationally (value = previous value + delta, added/removed disjoint and consistent with both values) and against a Python container model. Seeded sampling."),
     "C06": ("exploration", "3.C06", "Each seeded program is wired in several admissible statement orders and seeded with duplicated and near-duplicated sub-expressions and sinks; streams must be identical across orders and equal to the reference interpreter on the un-shared program, and the compiled node count may never fall below the number of statement classes that must stay distinct. Sampling of programs, orders and duplicate placements."),
     "C07": ("exploration", "3.C07", "Refinement against the system's own sequential behaviour: the fresh-process trace of a scenario is compared line by line with its trace after seeded process history, under builder reuse (incl. after failed runs), under wall-clock faults, and while 1-3 other executors run concurrently on simulated threads whose interleaving a seeded scheduler decides at every intercepted mutex operation and node evaluation. Sampling of scenarios, histories and interleavings; word-level races are out of reach."),
@@ -24,7 +24,7 @@ CHECKS = {
     "C16": ("exploration", "3.C16", "The real push-source node, sender and real-time executor run on simulated threads: a seeded scheduler chooses the running thread at every intercepted pthread mutex/condition-variable call, advances a simulated clock and injects stalls, spurious and late wake-ups, starvation and stop races. The recorded invoke/return/deliver history is checked for FIFO linearizability, exactly-once, capacity, justified refusals, bounded liveness and lost wake-ups (a forced time-out of the engine's wait while work is pending). Seeded sampling of interleavings (distinct decision-list hashes are counted), not enumeration."),
     "C17": ("exploration", "3.C17", "The real real-time run loop on a simulated wall clock with scripted timers, wall-clock alarms, pushes, stop requests, slow evaluations and clock faults; time/ordering invariants over the recorded history (never early, every due wake-up delivered at its logical time, prompt stop, end-time termination, no lost wake-up, no deadlock). Seeded sampling of schedules and interleavings."),
     "C18": ("exploration", "3.C18", "Seeded operation sequences on the real NodeScheduler executed by scripted nodes inside running graphs; every query answer after every operation is compared with a pending-set reference model and every pending time must produce an evaluation at exactly that time. Sampling of operation sequences."),
-    "C20": ("exploration", "3.C20", "For seeded tick histories over a 19-shape schema library the run records the stream, replays the recording in a second run and records again; buffers must be equal cycle for cycle, a capture/apply mirror must hold the writer's value at every tick. Seeded sampling of schemas and histories."),
+    "C20": ("exploration", "3.C20", "For seeded tick histories over a 22-shape schema library the run records the stream, replays the recording in a second run and records again; buffers must be equal cycle for cycle, a capture/apply mirror must hold the writer's value at every tick. Seeded sampling of schemas and histories."),
 }
 NOTE = ("Trusted base: g++ 12 / libstdc++, the /verif harness vocabulary and reference models (sim/*.py), the interposition of pthread and clock_gettime; "
         "the C++ tree is compiled from /repo's working tree (120 of 122 TUs; time-zone provider and JSON operator family are stubs). The Python bridge is not executed.")
